@@ -696,6 +696,102 @@ def c20(tier, seed):
           (prop, "HELD" if rc == 0 else "VIOLATED" if rc == 1 else "INCONCLUSIVE", tier, seed, len(allc), pairs, len(v.violations), len(v.harness), time.time() - t0, rc))
     return rc
 
+# ---- C19: drop-in override ----------------------------------------------------------------------------------------------------
+OVR_C_SYMS = ["malloc", "calloc", "realloc", "free", "posix_memalign", "aligned_alloc", "memalign", "valloc", "pvalloc", "reallocarray", "malloc_usable_size", "cfree", "strdup", "strndup",
+              "__libc_malloc", "__libc_calloc", "__libc_realloc", "__libc_free", "__libc_memalign", "__libc_valloc", "__libc_pvalloc", "__posix_memalign"]
+OVR_CXX_SYMS = ["_Znwm", "_Znam", "_ZdlPv", "_ZdaPv", "_ZdlPvm", "_ZdaPvm", "_ZnwmRKSt9nothrow_t", "_ZnamRKSt9nothrow_t", "_ZdlPvRKSt9nothrow_t", "_ZdaPvRKSt9nothrow_t",
+                "_ZnwmSt11align_val_t", "_ZnamSt11align_val_t", "_ZdlPvSt11align_val_t", "_ZdaPvSt11align_val_t", "_ZdlPvmSt11align_val_t", "_ZdaPvmSt11align_val_t",
+                "_ZnwmSt11align_val_tRKSt9nothrow_t", "_ZnamSt11align_val_tRKSt9nothrow_t", "_ZdlPvSt11align_val_tRKSt9nothrow_t", "_ZdaPvSt11align_val_tRKSt9nothrow_t"]
+OVR_MUST_SEE = ["malloc", "calloc", "realloc", "free", "posix_memalign", "aligned_alloc", "memalign", "valloc", "pvalloc", "reallocarray", "malloc_usable_size", "strdup", "strndup",
+                "_Znwm", "_Znam", "_ZdlPv", "_ZdaPv", "_ZdlPvm", "_ZnwmRKSt9nothrow_t", "_ZnamRKSt9nothrow_t", "_ZnwmSt11align_val_t", "_ZnamSt11align_val_t", "_ZdlPvSt11align_val_t", "_ZdlPvRKSt9nothrow_t"]
+
+def _bindings(prog, lib, tag):
+    """run `prog` with LD_DEBUG=bindings LD_BIND_NOW=1 under the preload; returns (bound_to_lib: {sym: count}, foreign: [(sym, from, to)])"""
+    import re, glob
+    outbase = os.path.join(build.build_dir(), "bind_%s_%d" % (tag, os.getpid()))
+    env = dict(os.environ); env.update({"LD_PRELOAD": lib, "LD_DEBUG": "bindings", "LD_BIND_NOW": "1", "LD_DEBUG_OUTPUT": outbase})
+    for k in list(env):
+        if k.startswith("MIMALLOC_"): del env[k]
+    r = subprocess.run([prog], env=env, stdout=subprocess.PIPE, stderr=subprocess.PIPE, timeout=600)
+    rx = re.compile(r"binding file (\S+) \[\d+\] to (\S+) \[\d+\]: normal symbol `([^']+)'")
+    wanted = set(OVR_C_SYMS + OVR_CXX_SYMS)
+    good = {}; foreign = []
+    for f in glob.glob(outbase + ".*"):
+        with open(f, errors="replace") as fh:
+            for line in fh:
+                m = rx.search(line)
+                if not m: continue
+                frm, to, sym = m.groups()
+                if sym not in wanted: continue
+                if os.path.basename(to) == os.path.basename(lib): good[sym] = good.get(sym, 0) + 1
+                else: foreign.append((sym, frm, to))
+        os.unlink(f)
+    return good, foreign, r
+
+@check("C19")
+def c19(tier, seed):
+    t0 = time.time(); prop = "C19"
+    so = build.override_lib("rel"); so_dbg = build.override_lib("dbg")
+    progs = {"matrix": build.ovr_program("ovr_matrix.cpp"), "c": build.ovr_program("ovr_c.c")}
+    sprogs = {"matrix_static": build.ovr_program("ovr_matrix.cpp", static=True), "c_static": build.ovr_program("ovr_c.c", static=True)}
+    v = Verdict(prop)
+    cases = []
+    for name, exe in progs.items():
+        for lib, ltag in ((so, "rel"), (so_dbg, "dbg")):
+            cases.append(Case("C19-preload-%s-%s" % (name, ltag), [exe], env={"LD_PRELOAD": lib}, timeout=900, crash_refutes=[prop], meta={"variant": "ovr-so-" + ltag, "program": name}))
+            cases.append(Case("C19-preload-bindnow-%s-%s" % (name, ltag), [exe], env={"LD_PRELOAD": lib, "LD_BIND_NOW": "1", "MIMALLOC_SHOW_ERRORS": "1"}, timeout=900, crash_refutes=[prop], meta={"variant": "ovr-so-" + ltag, "program": name}))
+    for name, exe in sprogs.items():
+        cases.append(Case("C19-static-%s" % name, [exe], timeout=900, crash_refutes=[prop], meta={"variant": "ovr-static", "program": name}))
+    for c in core.run_cases(cases): v.add(c)
+    # dynamic linker bindings: every allocation entry point, from every object in the process, must bind to the override library
+    bind_cov = {}
+    for name, exe in progs.items():
+        good, foreign, r = _bindings(exe, so, name)
+        bind_cov[name] = {"symbols_bound_to_mimalloc": len(good), "bindings": sum(good.values()), "foreign": len(foreign)}
+        class _C: pass
+        dummy = Case("C19-bindings-%s" % name, [exe], env={"LD_PRELOAD": so, "LD_DEBUG": "bindings", "LD_BIND_NOW": "1"}, meta={"variant": "ovr-so-rel"}); dummy.exit = r.returncode; dummy.result = {}
+        for (sym, frm, to) in foreign[:5]:
+            v.violations.append(core.Finding(prop, "binding:%s" % sym, "with LD_PRELOAD of the override library, `%s' referenced from %s is bound to %s instead of the override library" % (sym, frm, to), dummy, [prop], "trip"))
+        if name == "matrix":
+            missing = [s for s in OVR_MUST_SEE if s not in good]
+            for s in missing[:5]:
+                v.violations.append(core.Finding(prop, "binding-missing:%s" % s, "with LD_PRELOAD of the override library no reference to `%s' was bound to it (the entry point is not exported by the library)" % s, dummy, [prop], "trip"))
+    # whole programs: same output and exit status with and without the preload
+    whole = [("python3", ["python3", "-c", "import json,re,collections; d=collections.OrderedDict((str(i),[i]*50) for i in range(20000)); s=json.dumps(d); print(len(s), len(re.findall('1', s)))"]),
+             ("sort", ["sh", "-c", "seq 1 200000 | sort -r | tail -3"]),
+             ("ls", ["sh", "-c", "ls -lR /usr/include | wc -l"]),
+             ("gcc", ["sh", "-c", "echo 'int main(){return 0;}' | gcc -x c -O2 -c -o /dev/null - && echo compiled"]),
+             ("awk", ["sh", "-c", "seq 1 100000 | awk '{a[$1%1000]=a[$1%1000] $1} END {print length(a[7])}'"])]
+    if tier == "thorough":
+        whole += [("python-big", ["python3", "-c", "import random; l=[bytes(random.randrange(1,5000)) for _ in range(100000)]; random.shuffle(l); del l[::2]; print(sum(map(len,l))>0)"]),
+                  ("tar", ["sh", "-c", "tar cf - /usr/include 2>/dev/null | gzip -1 | wc -c | awk '{print ($1>1000)}'"])]
+    whole_cov = {}
+    for name, cmd in whole:
+        e0 = {k: x for k, x in os.environ.items() if not k.startswith("MIMALLOC_")}
+        try:
+            r0 = subprocess.run(cmd, env=e0, stdout=subprocess.PIPE, stderr=subprocess.PIPE, timeout=600)
+            e1 = dict(e0); e1["LD_PRELOAD"] = so
+            r1 = subprocess.run(cmd, env=e1, stdout=subprocess.PIPE, stderr=subprocess.PIPE, timeout=600)
+        except (OSError, subprocess.TimeoutExpired) as ex:
+            whole_cov[name] = "skipped: %s" % ex; continue
+        whole_cov[name] = {"exit": r1.returncode, "same_output": r0.stdout == r1.stdout}
+        if r0.returncode == 0 and (r1.returncode != r0.returncode or r1.stdout != r0.stdout or b"mimalloc: error" in r1.stderr):
+            dummy = Case("C19-whole-%s" % name, cmd, env={"LD_PRELOAD": so}, meta={"variant": "ovr-so-rel"}); dummy.exit = r1.returncode; dummy.result = {}
+            v.violations.append(core.Finding(prop, "whole-program:%s" % name, "`%s` behaves differently under LD_PRELOAD of the override: exit %d vs %d, stdout %r vs %r, stderr %r" %
+                                             (" ".join(cmd)[:80], r1.returncode, r0.returncode, r1.stdout[-100:], r0.stdout[-100:], r1.stderr[-300:]), dummy, [prop], "trip"))
+    ov = core.merge_counts(cases, "ovr")
+    cov = {"entry_point_pairs": ov.get("pairs", 0), "allocations_checked": ov.get("allocations_checked", 0) + ov.get("c_allocations_checked", 0), "libc_internal_allocators": ov.get("libc_internal_allocators", 0),
+           "bindings": bind_cov, "whole_programs": whole_cov, "configurations": ["LD_PRELOAD release", "LD_PRELOAD debug (MI_DEBUG=2, foreign pointers are reported)", "LD_PRELOAD + LD_BIND_NOW", "static override object"]}
+    rc = v.report()
+    cov.update({"evaluations": int(ov.get("pairs", 0)) + len(whole), "distinct_nontrivial": 22 * 11 if ov.get("pairs", 0) >= 22 * 11 else int(ov.get("pairs", 0)),
+                "rule": "an evaluation = one (allocating entry point, releasing/resizing/querying entry point, size, alignment) combination executed in an overriding process with mi_is_in_heap_region / "
+                        "mi_usable_size / malloc_usable_size checks and content checks, or one whole program compared with and without the preload; distinct_nontrivial = distinct (allocator, releaser) pairs",
+                "samples": [{"pair": "posix_memalign -> operator delete(sized)"}, {"pair": "getline (libc internal) -> realloc(grow)"}, {"whole": whole[0][1][:2]}]})
+    if rc == 0 and ov.get("pairs", 0) < 1000: print("INCONCLUSIVE: matrix did not run"); rc = 2
+    core.write_evidence(prop, tier, seed, "exploration", cov, time.time() - t0, len(v.violations), ["glibc 2.36 / libstdc++ 12 on this image only", "LD_DEBUG=bindings reports every symbol binding the dynamic linker performs"])
+    print("%s %s tier=%s: %d processes, %d entry-point pairs, %d violations, %.1fs -> exit %d" % (prop, "HELD" if rc == 0 else "VIOLATED" if rc == 1 else "INCONCLUSIVE", tier, len(cases), int(ov.get("pairs", 0)), len(v.violations), time.time() - t0, rc))
+    return rc
+
 # ---- C13: pairwise covering array over the commit / purge / arena options --------------------------------------------
 OPTION_DOMAINS = [
     ("MIMALLOC_PURGE_DELAY", ["-1", "0", "1", "10"]),
@@ -806,7 +902,8 @@ def setup():
     compileall.compile_dir(os.path.join(VERIF, "vf"), quiet=1)
     os.makedirs(core.EVIDENCE_DIR, exist_ok=True)
     try:
-        build.build_many([("drv_seq", "rel"), ("drv_seq", "dbg"), ("drv_seq", "sec")])
+        build.build_many([("drv_seq", "rel"), ("drv_seq", "dbg"), ("drv_seq", "sec"), ("drv_mt", "rel-h"), ("drv_mt", "dbg-h"), ("drv_mt", "tsan-h"), ("drv_seq", "asan")])
+        build.static_driver("drv_arith", "rel"); build.static_driver("drv_opts", "rel")
         build.prune_old()
     except build.BuildError as e:
         print(e); return 2
